@@ -73,7 +73,17 @@ func (p *clientConnPool) GetClientConn(req *http.Request, addr string, dialOnMis
 		traceGetConn(req, addr)
 		call := p.getStartDialLocked(req.Context(), addr, isPlainHTTP(req))
 		p.mu.Unlock()
-		<-call.done
+		select {
+		case <-call.done:
+		case <-req.Context().Done():
+			// A request that joined a dial started by another request does not have to wait for
+			// it once its own context has ended (the dial goes on for its owner). The owner's
+			// dial ends with its context by itself.
+			if call.ctx != req.Context() {
+				return nil, req.Context().Err()
+			}
+			<-call.done
+		}
 		if shouldRetryDial(call, req) {
 			continue
 		}
